@@ -1445,6 +1445,12 @@ func exhaustive(tkind, route, hname string, L, workers int, core bool) {
 	}
 	alpha := alphabet(tkind, route, core)
 	probe := []int{0, 1, 2, 3, 4}
+	// read-only probes (subset queries, aliasing of derived results) after the last operation:
+	// on every 4th history, every 32nd in the long enumerations
+	probeEvery := int64(4)
+	if L >= 6 {
+		probeEvery = 32
+	}
 	type job struct{ a, b int }
 	jobs := make(chan job, 1024)
 	// watchdog: a worker that does not finish a history within 30 s is reported and the run ends
@@ -1587,7 +1593,7 @@ func exhaustive(tkind, route, hname string, L, workers int, core bool) {
 						bad = true
 						return
 					}
-					if st.histories%4 == 0 {
+					if st.histories%probeEvery == 0 {
 						if _, msg := s.checkAliasProbes(want); msg != "" || s.checkSubsetProbes(want) != "" {
 							bad = true
 						}
